@@ -31,14 +31,18 @@ CLAIMED = {
     },
     "C03": {
         "category": "translation_validation",
-        "text": "Conformance to a reference interpreter: the Coq evaluator (Eval.v: two-level Boxed_Value store, scopes/frames, dispatch by arity and guard, exceptions as outcomes; "
-                "specification arithmetic of NumDefs) run on the unoptimised tree is the reference; every generated program's stdout, result value/type and error outcome from the "
-                "real default engine must equal the reference's. Laws of the reference (short-circuit, if, zero-iteration loops) are proved in Properties_C03.v; nothing is claimed "
-                "about programs that were not generated.",
-        "design_ref": "DESIGN.md §6 C03",
-        "note": "The reference covers the core subset (ints/bools/strings/vectors, blocks, if, loops with break/continue, switch, functions with guards/recursion, lambdas with captures, "
-                "references vs copies, try/catch/finally); programs outside it are counted and not judged. Trusted: tree dump/reader (round-trip tied), generator, canonicaliser.",
-        "technique": "translation validation against an extracted Coq reference interpreter",
+        "text": "Conformance to a reference interpreter: the Coq evaluator (Eval.v: two-level Boxed_Value store, scopes/frames, dispatch by arity, declared parameter types and guard, "
+                "script-defined classes with attributes, constructor overloads, methods, attributes created on the spot, functions held in attributes and object copies, maps, exceptions as "
+                "outcomes; specification arithmetic of NumDefs) run on the unoptimised tree is the reference; every generated program's stdout, result value/type and error outcome from the "
+                "real default engine must equal the reference's. Laws of the reference are proved in Properties_C03.v for every sub-term evaluator (hence every fuel): short-circuit, if, "
+                "break/continue/return, block and function scoping, a parameter typed with a class accepts exactly the objects of that class (C03_class_typed_parameter), a method is not "
+                "entered with another class's object or a non-object (C03_method_refuses_other_classes), a constructor answers the object made for it (C03_constructor_answers_its_object), "
+                "an attribute read answers the attribute's own Boxed_Value (C03_attribute_identity). Nothing is claimed about programs that were not generated.",
+        "design_ref": "DESIGN.md §6 C03, §11.2",
+        "note": "The reference covers ints/bools/strings/vectors/maps, blocks, if, loops with break/continue, switch, functions with typed parameters/guards/recursion, lambdas with captures, "
+                "references vs copies, try/catch/finally, script classes; programs outside it (to_string/== of objects, const objects, methods named like engine functions, overloads whose "
+                "order depends on type_info::before, ...) are counted and not judged. Trusted: tree dump/reader (round-trip tied), generator, canonicaliser.",
+        "technique": "translation validation against an extracted Coq reference interpreter + Coq laws of that interpreter",
     },
     "C13": {
         "category": "proof",
@@ -248,11 +252,15 @@ CLAIMED = {
                 "source on every run) terminates (C01_terminates: one induction on the call-depth fuel; every continuing loop iteration consumes a byte), never crashes (C01_safe: no read or "
                 "decrement outside the buffer, match stack, operator table or a node's children, no node-constructor assertion, no foreign exception), keeps the chain of nested grammar calls "
                 "within the 512-level Depth_Counter and reports excess as an error (C01_depth_*), and accounts for the whole input: a successful parse is a File node with the cursor at the end "
-                "or the Noop node of a trivia-only input (C01_accounts for every input not starting with `#!`; C01_accounts_partial for all inputs). Tie: ~44k (quick) / ~140k (thorough) inputs "
-                "per run, ASan/UBSan parser vs extracted model, tree for tree; oracle independent of the model (trivia automaton, end position, expected file name).",
+                "or the Noop node of a trivia-only input (C01_accounts, for ALL inputs incl. those beginning with `#!`: C01_shebang_line proves the shebang loop skips exactly that line), with "
+                "exactly the root left on the match stack (C01_no_leaked_nodes). An eval_error carries no position (escape-sequence errors of the Char_Parser) or the line of a cursor position "
+                "inside the caller's buffer, nested `${...}` parses included (C01_error_position). The file name passed to parse() influences only stored file-name fields and `__FILE__` "
+                "constants; errors are identical and the two runs are in lock step (C01_fname_independent). Tie: ~44k (quick) / ~140k (thorough) inputs per run, ASan/UBSan parser vs extracted "
+                "model, tree for tree; oracle independent of the model (trivia automaton, end position, expected file name).",
         "design_ref": "DESIGN.md §6 C01, §11",
-        "note": "Hand port of the grammar layer (ParserDefs.v), tied by the correspondence only. Missing: the shebang-loop lemma for inputs starting with `#!`. The amount of work is exponential in "
-                "inline-container nesting (known finding) and left-deep chains are not depth-limited (known finding: the tree overflows the native stack when destroyed/evaluated). No axioms.",
+        "note": "Hand port of the grammar layer (ParserDefs.v), tied by the correspondence only. C01_error_position covers the line, not the column (needs the C20 decrement side conditions along "
+                "error paths). Escape-sequence errors (octal out of range, incomplete hex, unicode) are thrown by the one-argument eval_error and carry position 0:0. The amount of work is exponential "
+                "in inline-container nesting (known finding) and left-deep chains are not depth-limited (known finding: the tree overflows the native stack when destroyed/evaluated). No axioms.",
         "technique": "Coq proofs over a hand-ported grammar + source-regenerated tables + extracted-model/implementation correspondence under sanitizers",
     },
     "C20": {
